@@ -13,7 +13,7 @@ reads on the cached sessions equal the reads on the plain session; key collision
 import zlib
 
 import common
-from props import c18_cachehist, c18_cachekey, c18_consolidate
+from props import c18_cachehist, c18_cachekey, c18_consolidate, c18_sessions, c18_transport
 from props import clientsim as cs
 
 LEVEL = "proof"
@@ -54,6 +54,8 @@ def explore(ctx, tier, search=False):
     c18_cachekey.explore(ctx, "thorough" if search else tier)
     c18_cachehist.explore(ctx, "thorough" if search else tier)
     c18_consolidate.explore(ctx, "thorough" if search else tier)
+    c18_sessions.explore(ctx, "thorough" if search else tier)
+    c18_transport.explore(ctx, "thorough" if search else tier)
 
 
 def run(ctx):
@@ -74,6 +76,14 @@ def run(ctx):
                        "dimension constraint identically in every file under the declared base (and within one Earthdata "
                        "collection); without it consolidation changes results (C18_cache_consolidated_needs_shared_equal)",
                        "name resolution is disabled: a request outside the session fails fast"]
+    ctx.rule += ("; plus transport scenarios (a dataset with a Sequence of 0..200 rows and an array served by a real BaseHandler, "
+                 "gzip-coding or not, and raw bodies gzip / plain / unknown coding of 0..700 bytes; 3..12 reads with repeats: open_url, "
+                 "Sequence iteration, array slices, open_dods_url, whole and streamed reads of raw URLs with stream= on/off; raw stream "
+                 "cut into generated short reads) on {requests.Session, CachedSession(memory), create_session(use_cache)}, non-trivial "
+                 "when the scenario issues at least one GET")
+    ctx.assumptions.append("urllib3 (incremental gzip decoding = gunzip of the whole body), requests (content / iter_content) and "
+                           "requests_cache (stores header + decoded content, replays it undecoded) behave as listed in "
+                           "design_notes/C18.md, transport section; unz (z b) = b is a hypothesis of C18_read_paths_agree")
     ctx.proof_phase()
     explore(ctx, ctx.tier)
     return ctx.finish(search=lambda c: explore(c, "thorough", search=True))
@@ -85,8 +95,12 @@ def replay(payload):
         print("nothing to replay: %s" % payload.get("no_longer_checks"))
         return False
     c = f["case"]
+    if "transport" in c:
+        return c18_transport.replay_case(c)
     if "history" in c:
         return c18_cachehist.replay_case(c)
+    if "process" in c:
+        return c18_sessions.replay_case(c)
     if "collection" in c:
         return c18_consolidate.replay_case(c)
     if "ops" not in c:
